@@ -553,6 +553,15 @@ def enumerated(tier):
         for d1 in dns_opts:
             for d2 in dns_opts:
                 yield {**base, "addresses": ["a.example.com", "b.example.com"], "dns": {"a.example.com": d1, "b.example.com": d2}, "tcp_script": [["refuse", 2], ["ok", 2]]}
+    # faults of the start phase that are neither OSError nor a library error: a malformed host name refused by the idna
+    # codec, a loop whose sock_connect raises RuntimeError
+    for noise in (False, True):
+        base = {"noise": noise, "login": True, "flow": "connect", "K": 8.0, "final_at": 100.0, "events": []}
+        for host in ("bad..host", "x" * 70 + ".example.com"):
+            yield {**base, "addresses": [host], "dns": {host: ["unicode_error"]}}
+            yield {**base, "addresses": ["10.0.0.7", host], "dns": {host: ["unicode_error"]}}
+        yield {**base, "tcp_script": [["rt", 2]]}
+        yield {**base, "addresses": ["10.0.0.7", "10.0.0.8"], "tcp_script": [["rt", 2], ["ok", 2]]}
     scs = [s for s in life.golden_scenarios() if s["flow"] != "full" or tier == "thorough"]
     yield from life.single_fault_sweep(scs)
     yield from life.sock_fault_sweep()
